@@ -6,7 +6,7 @@
 import asyncio
 from symex import vloop, crypto
 from symex.api import And, Or, Not, Implies, Iff, blist, bwrap, beq, exc_sig, as_int, tobytes
-from . import env, appenv, ref
+from . import env, appenv, ref, lvsref
 
 PROPERTY = 'C14'
 INFO = {
@@ -313,6 +313,66 @@ def h_ctor(eng, case):
     eng.reach('end')
 
 
+CTOR_SCHEMAS = {
+    # two roots of trust whose names are disjoint: no anchor matches both
+    'two-roots-disjoint': '#KEY: "KEY"/_/_/_\n#root: /"k"/#KEY\n#root2: /"j"/#KEY\n#d: /"k"/"d"/_ <= #root\n#e: /"j"/"e"/_ <= #root2\n',
+    # the anchor name also matches a rule that is not a root of trust
+    'extra-nonroot-match': '#KEY: "KEY"/_/_/_\n#root: /"k"/#KEY\n#anykey: /_/#KEY <= #root\n#d: /"k"/"d"/_ <= #anykey\n',
+    # two roots with overlapping names: /k/KEY/.. matches both, any other first component only the second
+    'two-roots-overlap': '#KEY: "KEY"/_/_/_\n#root: /"k"/#KEY\n#root2: /_/#KEY\n#d: /"k"/"d"/_ <= #root\n#e: /"j"/"e"/_ <= #root2\n',
+    # no rule is signed: no roots of trust at all
+    'no-signing': '#KEY: "KEY"/_/_/_\n#root: /"k"/#KEY\n',
+}
+
+
+def ref_roots(text):
+    """roots of trust by the source text: rules named as a signer that have no signer themselves"""
+    rules = lvsref.parse(text)
+    signed = set(r.name for r in rules if r.signers)
+    return set(s for r in rules for s in r.signers if s not in signed)
+
+
+def h_ctor_roots(eng, case):
+    """anchor vs roots of trust, for every first name component of the anchor (one symbolic byte)"""
+    import datetime
+    from ndn.app_support import security_v2 as sv
+    from ndn.app_support.light_versec import Checker, lvs_validator, compile_lvs
+    from ndn.security.validator.cascade_validator import MemoryKeyStorage
+    from ndn.encoding import Component
+    text = CTOR_SCHEMAS[case['schema']]
+    kind = case['anchor_kind']
+    env.set_clock(lambda: 1700000000000)
+    d0, d1 = datetime.datetime(2020, 1, 1), datetime.datetime(2040, 1, 1)
+    first = bwrap([8, 1] + blist(eng.bytes('first', 1)))
+    keyname = [first, Component.from_str('KEY'), Component.from_str('1')]
+    s, pub = mk_signer(kind, None, 'anchor')
+    s.key_locator_name = keyname
+    name, wire = sv.new_cert(keyname, Component.from_str('self'), pub, s, d0, d1)
+    s.key_locator_name = name
+    name, wire = sv.new_cert(keyname, Component.from_str('self'), pub, s, d0, d1)
+    ref = lvsref.Schema(text)
+    roots = ref_roots(text)
+    ta = set(r for r, b in lvsref.ref_match(ref, list(name), {}))
+    expect_ok = bool(ta) and roots <= ta
+    app, face = appenv.make_app('v1')
+    err = None
+    try:
+        lvs_validator(Checker(compile_lvs(text), {}), app, tobytes(wire), MemoryKeyStorage())
+    except ValueError:
+        err = 'ValueError'
+    except Exception as e:
+        err = exc_sig(e)
+    if expect_ok:
+        eng.check(err is None, 'constructor-checks-anchor', {'err': err, 'schema': case['schema'], 'anchor-matches': sorted(ta)},
+                  sig='refuses-anchor-matching-all-roots:%s' % err)
+    else:
+        eng.check(err == 'ValueError', 'constructor-checks-anchor', {'schema': case['schema'], 'roots': sorted(roots),
+                                                                     'anchor-matches': sorted(ta)},
+                  sig='anchor-not-matching-all-roots:%s' % ('accepted' if err is None else err))
+    eng.observe('err', err)
+    eng.reach('ok' if expect_ok else 'refused')
+
+
 def h_history(eng, case):
     """two validator instances with different anchors, built with DEFAULT arguments; the verdict for a packet does not
     depend on what was validated before, and by whom"""
@@ -360,7 +420,7 @@ def h_history(eng, case):
     eng.reach('end')
 
 
-HARNESSES = {'chain': h_chain, 'ctor': h_ctor, 'history': h_history}
+HARNESSES = {'ctor_roots': h_ctor_roots, 'chain': h_chain, 'ctor': h_ctor, 'history': h_history}
 
 FAULTS = ['none', 'issuer-not-allowed', 'sig-corrupt', 'key-substituted', 'cert-nack', 'cert-timeout', 'unsigned',
           'locator-loop', 'name-outside-schema', 'mid-signed-by-other']
@@ -378,6 +438,9 @@ def cases(tier, seed):
     for kind in ('rsa', 'ecdsa', 'hmac'):
         for v in ('valid', 'corrupt', 'wrong-name', 'signed-by-other-key'):
             cs.append(('ctor', {'anchor_kind': kind, 'variant': v}))
+    for sch in CTOR_SCHEMAS:
+        for kind in ('rsa', 'hmac'):
+            cs.append(('ctor_roots', {'schema': sch, 'anchor_kind': kind}))
     for o in range(7):
         cs.append(('history', {'order': o}, {'weight': 5}))
     return cs
